@@ -65,8 +65,32 @@ def run(chk, prog):
                     "an entry is accepted on a path that does not pass the edge `keyid == key.key_id()`",
                     site_of(ctx.body.span), path=ctx.describe_path(p))
         ins = [(bb, t) for bb, t in ctx.calls(HINSERT)]
-        chk.floor("R2-insert", len(ins), 1, "map.insert in validate_and_insert_entry")
+        # entry API spelling: match map.entry(keyid) { Occupied(_) => Err, Vacant(slot) => { slot.insert(key); Ok } }
         N = []
+        vins = []
+        for ebb, et in ctx.calls("std::collections::hash::map::HashMap::entry"):
+            k = ctx.origins.of_operand(et.args[1])
+            if not (k and all(o.kind == "param" and o.key[1] == "keyid" and not o.fields for o in k)):
+                continue
+            vac = variant_edges(ctx, et.dest.local, "Vacant")
+            for bb, t in ctx.calls("std::collections::hash::map::VacantEntry::insert"):
+                slot = ctx.origins.of_operand(t.args[0])
+                v = ctx.origins.of_operand(t.args[1])
+                from_entry = bool(slot) and all(o.kind == "call" and o.key[0] == ebb for o in slot)
+                chk.require(from_entry and bool(v) and all(o.kind == "param" and o.key[1] == "key" for o in v), "R2", f,
+                            "inserts-checked-pair", "the pair inserted is not (keyid, key)", ctx.site(bb))
+                p2 = cfg.witness_path([bb], T)
+                chk.require(p2 is None, "R2", f, "insert-after-id-match", "the entry is inserted before/without the identifier check",
+                            ctx.site(bb), path=ctx.describe_path(p2))
+                # Ok only through the Vacant edge AND the insertion itself
+                if vac and cfg.witness_path([bb], vac) is None:
+                    N.extend(vac)
+                    vins.append(bb)
+        if vins:
+            p4 = cfg.witness_path(okb, (), removed_blocks=vins)
+            chk.require(p4 is None, "R2", f, "ok-needs-insert", "Ok is returned without the entry having been inserted",
+                        site_of(ctx.body.span), path=ctx.describe_path(p4))
+        chk.floor("R2-insert", len(ins) + len(vins), 1, "map.insert in validate_and_insert_entry")
         for bb, t in ins:
             p2 = cfg.witness_path([bb], T)
             chk.require(p2 is None, "R2", f, "insert-after-id-match", "the entry is inserted before/without the identifier check",
